@@ -254,6 +254,244 @@ def mutate_while_iterating(model, R, scope):
     R.ok('MUTATE-WHILE-ITERATING', 'examined functions', 'concepts/', f'{n} loops over named collections scanned')
 
 
+# -- ONE-SHOT: typestate of parameters that may be one-shot iterators ------------------------------------------------------
+def lazy_callsite_params(model, func):
+    """Parameters of ``func`` that some call site in the package feeds with a lazily produced sequence (generator
+    expression, map/zip/filter/...): matched by the callee's (class) name and argument position/keyword."""
+    name = func.cls.name if (func.cls is not None and func.name == '__init__') else func.name
+    params = [p for p in func.params]
+    if func.cls is not None and params:
+        params = params[1:]
+    out = {}
+    for g in model.all_funcs():
+        for node in ast.walk(g.node):
+            if not isinstance(node, ast.Call) or (chain(node.func) or [''])[-1] != name:
+                continue
+            ch = chain(node.func)
+            if func.cls is None or func.name == '__init__':
+                if not (len(ch) == 1 or (len(ch) == 2 and ch[0] in model.modules) or (len(ch) == 2 and ch[0].lstrip('_') in model.modules)):
+                    continue
+            elif not (len(ch) == 2 and g.params and ch[0] == g.params[0] and g.cls is not None):
+                continue
+            bound = list(zip(params, node.args)) + [(k.arg, k.value) for k in node.keywords if k.arg in params]
+            for param, arg in bound:
+                if isinstance(arg, ast.GeneratorExp) or (isinstance(arg, ast.Call) and (chain(arg.func) or [''])[-1] in LAZY):
+                    out.setdefault(param, f'{g.key}:{node.lineno} passes {src(arg)[:50]}')
+    return out
+
+
+#: confirmed by reading: (function, parameter) -> reason the rule does not apply
+ONE_SHOT_EXCEPT = {
+    ('contexts.PrimeMixin.__getitem__', 'items'):
+        'documented objects-then-properties fallback re-reads the key after KeyError; C02 quantifies over collections, not iterators',
+}
+NON_CONSUMING = ('isinstance', 'callable', 'type', 'id', 'bool', 'len', 'hasattr', 'repr', 'iter')
+LAZY = ('map', 'filter', 'zip', 'iter', 'enumerate', 'chain', 'reversed', 'islice', 'starmap')
+
+
+class _OneShot:
+    """Count, over every path of a function, how often a tracked name is read (= may be consumed).  ``if`` arms are
+    alternatives, a ``try`` handler continues from the end of the body, a read inside a loop body or a comprehension
+    element counts twice.  Rebinding the name ends tracking; a lazily evaluated expression over a tracked name makes the
+    bound name tracked as well."""
+
+    def __init__(self, names):
+        self.count = {n: 0 for n in names}
+        self.where = {n: [] for n in names}
+        self.worst = {}
+
+    def snapshot(self):
+        return dict(self.count), {k: list(v) for k, v in self.where.items()}
+
+    def restore(self, snap):
+        self.count, self.where = dict(snap[0]), {k: list(v) for k, v in snap[1].items()}
+
+    def merge(self, snaps):
+        live = [s for s in snaps if s is not None]
+        if not live:
+            return None
+        count, where = {}, {}
+        for c, w in live:
+            for k, v in c.items():
+                if v >= count.get(k, -1):
+                    count[k], where[k] = v, w[k]
+        return count, where
+
+    def use(self, name, node, weight=1):
+        if name in self.count and name in self.where:
+            self.count[name] += weight
+            self.where[name].append(node)
+            if self.count[name] > self.worst.get(name, (0, None))[0]:
+                self.worst[name] = (self.count[name], list(self.where[name]))
+
+    def expr(self, node, weight=1):
+        if node is None:
+            return
+        if isinstance(node, ast.Name):
+            if isinstance(node.ctx, ast.Load):
+                self.use(node.id, node, weight)
+            return
+        if isinstance(node, ast.Compare) and len(node.ops) == 1 and isinstance(node.ops[0], (ast.Is, ast.IsNot)):
+            return
+        if isinstance(node, ast.Call):
+            name = (chain(node.func) or [''])[-1]
+            if name == 'len' and isinstance(node.func, ast.Name) and len(node.args) == 1 and isinstance(node.args[0], ast.Name):
+                # len() raises TypeError on an iterator: past this point the value is a sized container
+                self.count.pop(node.args[0].id, None)
+                self.where.pop(node.args[0].id, None)
+                return
+            if name in NON_CONSUMING and isinstance(node.func, ast.Name):
+                return
+        if isinstance(node, ast.UnaryOp) and isinstance(node.op, ast.Not) and isinstance(node.operand, ast.Name):
+            return
+        if isinstance(node, (ast.ListComp, ast.SetComp, ast.GeneratorExp, ast.DictComp)):
+            gens = node.generators
+            self.expr(gens[0].iter, weight)
+            inner = 2 * weight
+            for g in gens[1:]:
+                self.expr(g.iter, inner)
+            for g in gens:
+                for c in g.ifs:
+                    self.expr(c, inner)
+            for part in ([node.key, node.value] if isinstance(node, ast.DictComp) else [node.elt]):
+                self.expr(part, inner)
+            return
+        if isinstance(node, ast.Lambda):
+            self.expr(node.body, weight)
+            return
+        for child in ast.iter_child_nodes(node):
+            if isinstance(child, ast.expr_context) or isinstance(child, ast.operator):
+                continue
+            if isinstance(child, (ast.expr, ast.keyword, ast.comprehension, ast.Starred, ast.FormattedValue, ast.JoinedStr)):
+                self.expr(child.value if isinstance(child, ast.keyword) else child, weight)
+
+    def lazy_over(self, value):
+        if isinstance(value, ast.GeneratorExp):
+            return [n.id for n in ast.walk(value.generators[0].iter) if isinstance(n, ast.Name) and n.id in self.count]
+        if isinstance(value, ast.Call) and (chain(value.func) or [''])[-1] in LAZY:
+            return [a.id for a in value.args if isinstance(a, ast.Name) and a.id in self.count]
+        return []
+
+    def bind(self, target, value):
+        for n in ast.walk(target):
+            if isinstance(n, ast.Name) and isinstance(n.ctx, ast.Store):
+                if isinstance(target, ast.Name) and value is not None and self.lazy_over(value):
+                    self.count[n.id] = 0
+                    self.where[n.id] = []
+                elif n.id in self.count:
+                    del self.count[n.id]
+                    self.where.pop(n.id, None)
+
+    def block(self, body, weight=1):
+        """Returns False when every path through ``body`` left the function."""
+        for st in body:
+            if not self.stmt(st, weight):
+                return False
+        return True
+
+    def stmt(self, st, weight):
+        if isinstance(st, (ast.FunctionDef, ast.AsyncFunctionDef, ast.ClassDef)):
+            for n in ast.walk(st):
+                if isinstance(n, ast.Name) and isinstance(n.ctx, ast.Load):
+                    self.use(n.id, n, weight)
+            return True
+        if isinstance(st, (ast.Return, ast.Raise)):
+            self.expr(getattr(st, 'value', None) or getattr(st, 'exc', None), weight)
+            return False
+        if isinstance(st, (ast.Continue, ast.Break)):
+            return True
+        if isinstance(st, ast.Assign):
+            lazy = self.lazy_over(st.value)
+            self.expr(st.value, weight)
+            for t in st.targets:
+                self.bind(t, st.value)
+            return True
+        if isinstance(st, (ast.AnnAssign, ast.AugAssign)):
+            self.expr(st.value, weight)
+            if isinstance(st, ast.AnnAssign):
+                self.bind(st.target, st.value)
+            return True
+        if isinstance(st, ast.If):
+            self.expr(st.test, weight)
+            start = self.snapshot()
+            a = self.snapshot() if self.block(st.body, weight) else None
+            self.restore(start)
+            b = self.snapshot() if self.block(st.orelse, weight) else None
+            m = self.merge([a, b])
+            if m is None:
+                return False
+            self.restore(m)
+            return True
+        if isinstance(st, (ast.For, ast.AsyncFor, ast.While)):
+            self.expr(st.iter if not isinstance(st, ast.While) else st.test, weight)
+            if not isinstance(st, ast.While):
+                self.bind(st.target, None)
+            start = self.snapshot()
+            self.block(st.body, 2 * weight)
+            after = self.snapshot()
+            self.restore(self.merge([start, after]))
+            self.block(st.orelse, weight)
+            return True
+        if isinstance(st, ast.Try):
+            alive = self.block(st.body, weight)
+            after_body = self.snapshot()
+            outs = []
+            if alive:
+                ok = self.block(st.orelse, weight)
+                outs.append(self.snapshot() if ok else None)
+            for h in st.handlers:
+                self.restore(after_body)
+                outs.append(self.snapshot() if self.block(h.body, weight) else None)
+            m = self.merge(outs)
+            if m is None:
+                return self.block(st.finalbody, weight) and False
+            self.restore(m)
+            return self.block(st.finalbody, weight)
+        if isinstance(st, (ast.With, ast.AsyncWith)):
+            for item in st.items:
+                self.expr(item.context_expr, weight)
+            return self.block(st.body, weight)
+        for child in ast.iter_child_nodes(st):
+            if isinstance(child, ast.expr):
+                self.expr(child, weight)
+        return True
+
+
+def one_shot(model, R, scope):
+    """A parameter the signature promises to accept as ``Iterable`` (or that the package itself feeds from a generator)
+    is read at most once on every path before it is rebound: a second read of a one-shot iterator sees what the first
+    left over (``x in concepts`` followed by a loop over ``concepts`` silently drops the elements up to the match)."""
+    n = 0
+    for func in scope:
+        names = []
+        a = func.node.args
+        for arg in a.posonlyargs + a.args + a.kwonlyargs:
+            ann = src(arg.annotation) if arg.annotation is not None else ''
+            if 'Iterable' in ann or 'Iterator' in ann:
+                names.append(arg.arg)
+        fed = lazy_callsite_params(model, func) if func.name not in ('__getitem__', '__call__', '__contains__', '__iter__') else {}
+        for extra in fed:
+            if extra not in names:
+                names.append(extra)
+        names = [p for p in names if (func.key, p) not in ONE_SHOT_EXCEPT]
+        if not names:
+            continue
+        st = _OneShot(names)
+        st.block(func.body)
+        for p in names:
+            n += 1
+        for name, (cnt, nodes) in sorted(st.worst.items()):
+            if cnt >= 2:
+                second = nodes[1] if len(nodes) > 1 else nodes[0]
+                origin = name if name in names else f'{name} (lazily derived from a parameter)'
+                if name in fed:
+                    origin += f' [{fed[name]}]'
+                R.bad('ONE-SHOT', func, second, f'{origin} is consumed at most once on every path', 'one read, or tuple()/list() first',
+                      'read at lines ' + ', '.join(str(getattr(x, 'lineno', '?')) for x in nodes[:4]),
+                      extra={'consequence': 'a generator argument is partly or wholly exhausted by the first read; the second read sees the rest'})
+    R.ok('ONE-SHOT', 'examined functions', 'concepts/', f'{n} iterable parameters tracked')
+
+
 def run(model, R):
     """Generic rules over exactly the functions the property's own rules examined (and their nested functions), so a
     defect elsewhere in the same module is reported by the property it belongs to and by no other."""
@@ -287,3 +525,4 @@ def run(model, R):
     empty_reduce(model, R, scope)
     lazy_generator(model, R, scope)
     mutate_while_iterating(model, R, scope)
+    one_shot(model, R, scope)
